@@ -417,6 +417,68 @@ example : projOuts true (runTwo (linearSrc [1, 2, 3]) (shuffledSrc [1, 2, 3] (fu
       [(true, .next), (false, .next), (false, .renew true), (true, .next), (false, .next), (true, .next), (true, .next)]).1
     = [some (.value 1), some (.value 2), some (.value 3), some (.value 1)] := by decide
 
+/-! ### call sites keep their own iterator: the state store keyed per call-site object -/
+
+/-- In every schedule of consuming rows over the store, the values seen under key `k` are those of
+    one iterator of its own, started from record 0 (or from what the store already held),
+    whatever happens under the other keys. -/
+theorem store_key_independent {K : Type} [DecidableEq K] (src : Src α) (rep : Bool) (st : Store K α)
+    (ks : List K) (k : K) :
+    ((storeRun src rep st ks).1.filter (fun p => decide (p.1 = k))).map (·.2)
+      = (runN src ((st k).getD (create src rep)) (ks.count k)).1 := by
+  induction ks generalizing st with
+  | nil => rfl
+  | cons k' ks ih =>
+    by_cases h : k' = k
+    · subst h
+      have := ih (storeStep src rep st k').2
+      simp only [storeRun, List.filter_cons, decide_true, if_true, List.map_cons, List.count_cons_self, runN]
+      rw [this]
+      simp [storeStep]
+    · have := ih (storeStep src rep st k').2
+      have hne : (k' == k) = false := by simpa using h
+      simp only [storeRun, List.filter_cons, h, decide_false, List.count_cons, hne]
+      simp only [Bool.false_eq_true, if_false, Nat.add_zero]
+      rw [this]
+      simp [storeStep, Ne.symm h]
+
+/-- number of rows of site `s` in the schedule = number of its key in the key schedule (injectivity) -/
+theorem count_key_eq {S K : Type} [DecidableEq K] [DecidableEq S] (key : S → K)
+    (hinj : Function.Injective key) (sched : List S) (s : S) :
+    (sched.map key).count (key s) = sched.count s := by
+  induction sched with
+  | nil => rfl
+  | cons t ts ih =>
+    by_cases h : t = s
+    · subst h; simp [ih]
+    · have : key t ≠ key s := fun e => h (hinj e)
+      simp [h, this, ih]
+
+/-- **Every call site iterates independently from record 0**: with a key function that gives
+    different call sites different keys (object identity), the k-th consuming row of a
+    `Dataset.iterate` site gets `recs[k mod n]`, for every schedule in which other sites of the same
+    file consume in between — macros included by several templates and several blocks on one
+    source line included, because the key is not the source position. -/
+theorem site_keyed_iter_kth {S K : Type} [DecidableEq K] [DecidableEq S] (key : S → K) (hinj : Function.Injective key)
+    (recs : List α) (hn : 0 < recs.length) (sched : List S) (s : S) :
+    ((storeRun (linearSrc recs) true (fun _ => none) (sched.map key)).1.filter
+        (fun p => decide (p.1 = key s))).map (·.2)
+      = (List.range (sched.count s)).map
+          (fun k => Out.value (recs[k % recs.length]'(Nat.mod_lt _ hn))) := by
+  rw [store_key_independent, count_key_eq key hinj]
+  exact iter_run recs hn _
+
+/-- Why the key must be per object: if two call sites get the **same** key (e.g. a key made of
+    file, line and function name for a macro included twice), the second site continues the first
+    one's iterator — its first row gets record 1, not record 0. -/
+theorem shared_key_interferes :
+    (storeRun (linearSrc ["r0", "r1", "r2"]) true (fun _ => none)
+        ((["siteA", "siteB"]).map (fun _ => "recipe.yml:5:Dataset.iterate"))).1.map (·.2)
+      = [.value "r0", .value "r1"]
+    ∧ (storeRun (linearSrc ["r0", "r1", "r2"]) true (fun _ => none)
+        ((["siteA", "siteB"]).map (fun (s : String) => s))).1.map (·.2)
+      = [.value "r0", .value "r0"] := by decide
+
 /-- **update mode: one row per input record, in input order, and it stops** — the first
     iteration emits the `n` rows; because the single shared iterator does not repeat, any
     further iteration of the recipe emits nothing. -/
